@@ -72,6 +72,7 @@ def oracle(ctx, meta, X, y, cols_sorted, resp, flags):
     # every kept row must be an input row (same response), finite entries unchanged, order preserved
     src = np.array(cols_sorted, dtype=float).T.reshape(len(resp), -1) if cols_sorted else np.zeros((len(resp), 0))
     i0 = 0
+    match = []
     for r in range(X.shape[0]):
         found = False
         for i in range(i0, len(resp)):
@@ -88,6 +89,7 @@ def oracle(ctx, meta, X, y, cols_sorted, resp, flags):
                     break
             if ok:
                 found, i0 = True, i + 1
+                match.append(i)
                 break
         if not found:
             ctx.violation("row-not-an-input-sample", f"result row {r} (response {y[r]}) is not an input sample with "
@@ -96,21 +98,47 @@ def oracle(ctx, meta, X, y, cols_sorted, resp, flags):
     # exactly the rows without NaN (after the imputation of zero-rated samples) are kept - and only then
     respa = np.array(resp)
     keep = np.ones(len(resp), dtype=bool)
-    if flags["rm"]:
-        for j in range(src.shape[1]):
-            col = src[:, j]
-            nan = np.isnan(col)
-            zero = respa == 0
-            fill = np.nan
-            if flags["impute"] and np.any(zero & nan) and np.any(zero & ~nan):
-                with np.errstate(all="ignore"):
-                    fill = np.mean(col[zero & ~nan])
+    imp = src.copy()            # the samples after the imputation step (a fill value may itself be infinite)
+    for j in range(src.shape[1]):
+        col = src[:, j]
+        nan = np.isnan(col)
+        zero = respa == 0
+        fill = np.nan
+        if flags["impute"] and np.any(zero & nan) and np.any(zero & ~nan):
+            with np.errstate(all="ignore"):
+                fill = np.mean(col[zero & ~nan])
+        if not np.isnan(fill):
+            imp[zero & nan, j] = fill
+        if flags["rm"]:
             for i in range(len(resp)):
                 if nan[i] and not (zero[i] and not np.isnan(fill)):
                     keep[i] = False
     if list(respa[keep]) != list(y):
         ctx.violation("wrong-rows-kept", f"{int(keep.sum())} samples have no NaN after imputation but {len(y)} were "
                       f"returned (responses {list(y)[:10]} vs expected {list(respa[keep])[:10]})", rep)
+        return
+    # infinities become plus / minus twice the largest finite magnitude of that feature (over the returned rows)
+    # (the rows returned are the input rows `keep`, in order - established just above)
+    if flags["ri"] and int(keep.sum()) == X.shape[0]:
+        for j in range(X.shape[1]):
+            colx = X[:, j]
+            srcj = imp[keep, j]
+            infs = np.isinf(srcj)
+            if not infs.any():
+                continue
+            fin = np.abs(colx[~infs])
+            fin = fin[np.isfinite(fin)]
+            if fin.size == 0:
+                continue                  # (no finite value in the column: the error branch of the model)
+            ext = float(fin.max())
+            for r in np.where(infs)[0]:
+                want = np.sign(srcj[r]) * 2 * ext
+                if not (X[r, j] == want):
+                    ctx.violation("inf-replacement", f"an infinite entry ({srcj[r]!r}) of feature column {j} became "
+                                  f"{X[r, j]!r}; twice the largest finite magnitude of that feature is {want!r}",
+                                  {**rep, "observed": float(X[r, j]) if np.isfinite(X[r, j]) else repr(X[r, j]),
+                                   "expected": float(want)})
+                    return
 
 
 def weights_oracle(ctx, ys, w):
